@@ -3,7 +3,7 @@ from .. import simprop
 
 ID = "C11"
 FAMILY = "C11"
-VARIANTS = ("asan",)
+VARIANTS = ("asan", "rel")      # rel: only to re-judge a case that UBSan stopped (simprop)
 BUDGET = {"quick": dict(examples=80000, seconds=55), "thorough": dict(examples=2000000, seconds=540)}
 NONTRIVIAL = {'buffer-partial-transfer', 'buffer-amount-above-capacity'}
 PROFILES = [(4, 'buffer'), (1, 'mixed')]
